@@ -551,3 +551,264 @@ def f15_optional_aware(ctx, L):
                     'is flag+gap+value (size _OPTIONAL_SIZE, alignment max(4, value alignment)), so sizes / offsets / block '
                     'alignment of structs with optionals come out wrong' % (unparse(node), node.attr), unparse(stmt))
     L.floor('F15.optional-aware', n, 7)
+
+
+# ------------------------------------------------------------------------------------------------ F16 / layout
+def stmt_srcs(f, into_nested=False):
+    """Alpha-normalised source of every simple statement of f (order-insensitive lookups)."""
+    out = []
+    for n in f.walk(into_nested):
+        if isinstance(n, (ast.Assign, ast.AugAssign, ast.Return, ast.Expr, ast.Raise, ast.Delete)):
+            out.append(re.sub(r'\s+', ' ', unparse(n)))
+    return out
+
+
+def has(f, *alternatives):
+    srcs = stmt_srcs(f)
+    return any(a in srcs for a in alternatives)
+
+
+def f16_runtime_layout(ctx, L):
+    """Layout attributes are computed from the documented inputs through the documented aggregators."""
+    gen = ctx.py.mod('prophy.generators')
+    f = gen.func('struct_generator.add_attributes')
+    checks = [
+        ('_DYNAMIC', 'cls._DYNAMIC = any((type_._DYNAMIC for type_ in cls._types()))', 'a struct is dynamic iff any member is'),
+        ('_UNLIMITED', 'cls._UNLIMITED = any((type_._UNLIMITED for type_ in cls._types()))', 'a struct is unlimited iff any member is'),
+        ('_SIZE', 'cls._SIZE = sum((type_._OPTIONAL_SIZE if type_._OPTIONAL else type_._SIZE for type_ in cls._types()))',
+         'unpadded struct size is the sum of the members\' slot sizes'),
+        ('_ALIGNMENT', 'cls._ALIGNMENT = max((t._OPTIONAL_ALIGNMENT if t._OPTIONAL else t._ALIGNMENT for t in cls._types()))',
+         'struct alignment is the maximum slot alignment of its members'),
+        ('_SIZE+=', 'cls._SIZE += sum(get_padded_sizes())', 'the struct size includes the inter-field and end padding'),
+    ]
+    for k, src, why in checks:
+        L.check(has(f, src), 'F16.layout-formula', 'struct_generator.add_attributes|' + k, f.site(), why + ' (expected `%s`)' % src, '')
+    # the block (partial) alignment fold: reversed walk, seed 1, reset after a dynamic field, max aggregator
+    loops = [n for n in f.node.body if isinstance(n, ast.For)]
+    fold = [l for l in loops if 'reversed(' in unparse(l.iter)]
+    if len(fold) != 1:
+        raise AnalysisError('add_attributes: reversed block-alignment fold not found')
+    lp = fold[0]
+    L.check(unparse(lp.iter) == 'reversed(list(cls._types()))', 'F16.block-alignment-fold', 'add_attributes|iter', f.site(lp),
+            'the block alignment must be folded from the last member backwards over all member types', unparse(lp.iter))
+    idx = f.node.body.index(lp)
+    seed = f.node.body[idx - 1]
+    ok, v = (False, None)
+    if isinstance(seed, ast.Assign):
+        ok, v = try_const(seed.value)
+    L.check(ok and v in (0, 1) and unparse(seed.targets[0]) == 'alignment', 'F16.block-alignment-fold', 'add_attributes|seed',
+            f.site(seed), 'the fold over alignments must start from 1', unparse(seed))
+    body = [re.sub(r'\s+', ' ', unparse(s)) for s in lp.body]
+    want_tail = ['alignment = max(wire_alignment(type_), alignment)',
+                 'alignment = max(type_._OPTIONAL_ALIGNMENT if type_._OPTIONAL else type_._ALIGNMENT, alignment)']
+    L.check(len(lp.body) == 2 and isinstance(lp.body[0], ast.If) and body[1] in want_tail, 'F16.block-alignment-fold',
+            'add_attributes|aggregate', f.site(lp), 'each member must contribute max(slot alignment, running alignment) after the '
+            'dynamic-field test', ' ; '.join(body))
+    if isinstance(lp.body[0], ast.If):
+        ib = [re.sub(r'\s+', ' ', unparse(s)) for s in lp.body[0].body]
+        L.check(ib == ['type_._PARTIAL_ALIGNMENT = alignment', 'alignment = 1'] and not lp.body[0].orelse,
+                'F16.block-alignment-fold', 'add_attributes|block-end', f.site(lp.body[0]),
+                'a dynamic field closes a block: it gets the alignment of the block that follows, then the fold restarts at 1',
+                ' ; '.join(ib))
+        block_splitter(ctx, L, f, lp.body[0].test)
+    inner = gen.func('struct_generator.add_attributes.get_padded_sizes')
+    src = re.sub(r'\s+', ' ', unparse(inner.node))
+    for piece, why in (('offset = 0', 'offsets start at 0'), ('for size, alignment in zip(sizes, alignments):', 'each size is paired with the alignment of the NEXT member (the last with the struct alignment)'),
+                       ('offset += size', 'the running offset adds each slot size'),
+                       ('padding = distance_to_next_multiply(offset, alignment)', 'padding is the distance to the next multiple'),
+                       ('offset += padding', 'the running offset adds the padding'), ('yield padding', 'every padding is counted')):
+        L.check(piece in src, 'F16.layout-formula', 'get_padded_sizes|' + piece, inner.site(), why, '')
+    L.check('types[1:]] + [cls._ALIGNMENT]' in src, 'F16.layout-formula', 'get_padded_sizes|next-alignment', inner.site(),
+            'padding after member i aligns member i+1; after the last member, the struct', '')
+    guard = [n for n in f.node.body if isinstance(n, ast.If) and 'struct_packed' in unparse(n.test)]
+    L.check(len(guard) == 1 and re.sub(r'\s+', ' ', unparse(guard[0].test)) == 'not issubclass(cls, struct_packed) and cls._descriptor',
+            'F16.layout-formula', 'add_attributes|packed-guard', f.site(), 'padding is skipped exactly for struct_packed', '')
+    # union
+    u = gen.func('union_generator.add_attributes')
+    for k, src_, why in (
+            ('_ALIGNMENT', 'cls._ALIGNMENT = max(u32._ALIGNMENT, max((type_._ALIGNMENT for type_ in cls._types())))',
+             'union alignment = max(discriminator alignment, max arm alignment)'),
+            ('natural', 'natural_size = cls._ALIGNMENT + max((type_._SIZE for type_ in cls._types()))',
+             'union body starts one alignment unit after the discriminator and holds the largest arm'),
+            ('_SIZE', 'cls._SIZE = natural_size + distance_to_next_multiply(natural_size, cls._ALIGNMENT)',
+             'union size is rounded up to its alignment'),
+            ('disc', 'cls._discriminator_type = u32', 'the discriminator is a u32'),
+            ('_DYNAMIC', 'cls._DYNAMIC = False', 'unions are fixed')):
+        L.check(has(u, src_), 'F16.layout-formula', 'union_generator.add_attributes|' + k, u.site(), why + ' (expected `%s`)' % src_, '')
+    # optional
+    o = ctx.py.mod('prophy.optional').func('optional')
+    for k, src_, why in (
+            ('_OPTIONAL_ALIGNMENT', '_optional._OPTIONAL_ALIGNMENT = max(scalar.u32._ALIGNMENT, cls._ALIGNMENT)',
+             'optional slot alignment = max(flag alignment 4, value alignment)'),
+            ('_OPTIONAL_SIZE', '_optional._OPTIONAL_SIZE = _optional._OPTIONAL_ALIGNMENT + cls._SIZE',
+             'optional slot size = flag padded to the slot alignment + value size'),
+            ('_optional_type', '_optional._optional_type = scalar.u32', 'the flag is a u32'),
+            ('_OPTIONAL', '_optional._OPTIONAL = True', 'marks the class optional')):
+        L.check(has(o, src_), 'F16.layout-formula', 'optional|' + k, o.site(), why + ' (expected `%s`)' % src_, '')
+    # array() / bytes_() statics
+    a = ctx.py.mod('prophy.container').func('array')
+    cls = [c for c in a.node.body if isinstance(c, ast.ClassDef)]
+    if len(cls) != 1:
+        raise AnalysisError('array(): class _array not found')
+    attrs = {unparse(s.targets[0]): re.sub(r'\s+', ' ', unparse(s.value)) for s in cls[0].body if isinstance(s, ast.Assign)}
+    want = {'_max_len': 'size', '_TYPE': 'type_', '_SIZE': 'size * type_._SIZE', '_DYNAMIC': 'not size',
+            '_UNLIMITED': 'not size and (not bound)', '_OPTIONAL': 'False', '_ALIGNMENT': 'type_._ALIGNMENT', '_BOUND': 'bound',
+            '_BOUND_SHIFT': 'shift', '_PARTIAL_ALIGNMENT': 'None'}
+    for k, v in want.items():
+        L.check(attrs.get(k) == v, 'F16.layout-formula', 'array()._array.' + k, a.site(cls[0]),
+                'static %s of an array class must be `%s`' % (k, v), str(attrs.get(k)))
+    b = ctx.py.mod('prophy.composite').func('bytes_')
+    cls = [c for c in b.node.body if isinstance(c, ast.ClassDef)]
+    attrs = {unparse(s.targets[0]): re.sub(r'\s+', ' ', unparse(s.value)) for s in cls[0].body if isinstance(s, ast.Assign)}
+    want = {'_SIZE': 'size', '_DYNAMIC': 'not size', '_UNLIMITED': 'not size and (not bound)', '_OPTIONAL': 'False',
+            '_ALIGNMENT': '1', '_BOUND': 'bound', '_BOUND_SHIFT': 'shift', '_PARTIAL_ALIGNMENT': 'None'}
+    for k, v in want.items():
+        L.check(attrs.get(k) == v, 'F16.layout-formula', 'bytes_()._bytes.' + k, b.site(cls[0]),
+                'static %s of a bytes class must be `%s`' % (k, v), str(attrs.get(k)))
+    n = ctx.py.mod('prophy.scalar').func('numeric_decorator')
+    for k, v in (('_SIZE', 'size'), ('_ALIGNMENT', 'size'), ('_DYNAMIC', 'False'), ('_UNLIMITED', 'False'), ('_OPTIONAL', 'False'),
+                 ('_BOUND', 'None'), ('_PARTIAL_ALIGNMENT', 'None')):
+        L.check(has(n, 'cls.%s = %s' % (k, v)), 'F16.layout-formula', 'numeric_decorator.' + k, n.site(),
+                'a scalar has %s = %s' % (k, v), '')
+
+
+# abstract runtime member types for the block splitter (E6): name -> attribute values the guard may read
+ABSTRACT_RT = {
+    'scalar': dict(array=False, bytes=False, struct=False, union=False, DYNAMIC=False),
+    'enum': dict(array=False, bytes=False, struct=False, union=False, DYNAMIC=False),
+    'optional scalar': dict(array=False, bytes=False, struct=False, union=False, DYNAMIC=False),
+    'fixed bytes': dict(array=False, bytes=True, struct=False, union=False, DYNAMIC=False),
+    'limited bytes': dict(array=False, bytes=True, struct=False, union=False, DYNAMIC=False),
+    'dynamic bytes': dict(array=False, bytes=True, struct=False, union=False, DYNAMIC=True),
+    'greedy bytes': dict(array=False, bytes=True, struct=False, union=False, DYNAMIC=True),
+    'fixed array': dict(array=True, bytes=False, struct=False, union=False, DYNAMIC=False),
+    'limited array': dict(array=True, bytes=False, struct=False, union=False, DYNAMIC=False),
+    'dynamic array': dict(array=True, bytes=False, struct=False, union=False, DYNAMIC=True),
+    'greedy array': dict(array=True, bytes=False, struct=False, union=False, DYNAMIC=True),
+    'fixed struct': dict(array=False, bytes=False, struct=True, union=False, DYNAMIC=False),
+    'dynamic struct': dict(array=False, bytes=False, struct=True, union=False, DYNAMIC=True),
+    'unlimited struct': dict(array=False, bytes=False, struct=True, union=False, DYNAMIC=True),
+    'union': dict(array=False, bytes=False, struct=False, union=True, DYNAMIC=False),
+}
+
+
+def eval_rt_guard(test, var, t):
+    """Evaluate a guard over one abstract runtime type. Only issubclass/attribute/bool operators."""
+    if isinstance(test, ast.BoolOp):
+        vals = [eval_rt_guard(v, var, t) for v in test.values]
+        return all(vals) if isinstance(test.op, ast.And) else any(vals)
+    if isinstance(test, ast.UnaryOp) and isinstance(test.op, ast.Not):
+        return not eval_rt_guard(test.operand, var, t)
+    if isinstance(test, ast.Call) and unparse(test.func) == 'issubclass' and unparse(test.args[0]) == var:
+        cls = test.args[1].elts if isinstance(test.args[1], ast.Tuple) else [test.args[1]]
+        names = {'base_array': 'array', 'bytes': 'bytes', 'struct': 'struct', 'union': 'union'}
+        out = False
+        for c in cls:
+            k = names.get(unparse(c))
+            if k is None:
+                raise AnalysisError('block splitter: unknown class %s in issubclass' % unparse(c))
+            out = out or t[k]
+        return out
+    if isinstance(test, ast.Attribute) and unparse(test.value) == var and test.attr == '_DYNAMIC':
+        return t['DYNAMIC']
+    raise AnalysisError('block splitter predicate has an unrecognised term: %s' % unparse(test))
+
+
+def block_splitter(ctx, L, f, test):
+    """docs/encoding.rst: blocks end with dynamic fields - every member whose type is dynamic."""
+    for name, t in sorted(ABSTRACT_RT.items()):
+        if name in ('unlimited struct', 'greedy array', 'greedy bytes'):
+            continue    # can only be the last member (struct_generator.validate): no block follows, value irrelevant
+        got = eval_rt_guard(test, 'type_', t)
+        want = t['DYNAMIC']
+        L.check(got == want, 'E6.block-splitter', 'add_attributes|' + name, f.site(test),
+                'the runtime\'s "dynamic field" predicate `%s` is %s for a %s member but the documented block rule (and the '
+                'model, and the C++ codec) treat it as %s: the block after it is %saligned'
+                % (unparse(test), got, name, 'a block end' if want else 'no block end', 'not ' if want else 'wrongly '),
+                unparse(test))
+
+
+def counter_clause(ctx, L):
+    """Counters are derived from the arrays, never stored."""
+    d = ctx.py.mod('prophy.descriptor').func('encode_array_delimiter')
+    L.check(has(d, 'return type_._encode(type_.evaluate_size(parent), endianness)'), 'C01.counter-derived',
+            'encode_array_delimiter', d.site(), 'the encoded counter must be evaluate_size(parent), not the stored/passed value',
+            unparse(d.node))
+    g = ctx.py.mod('prophy.generators')
+    e = g.func('build_container_length_field.container_len.evaluate_size')
+    L.check(has(e, 'sizes = set((len(getattr(parent, c_name)) for c_name in cls._BOUND))') and has(e, 'return sizes.pop()'),
+            'C01.counter-derived', 'container_len.evaluate_size', e.site(),
+            'the count is the common length of the bound arrays', unparse(e.node))
+    L.check(any(isinstance(n, ast.If) and unparse(n.test) == 'len(sizes) != 1' and terminates(n.body) for n in e.node.body),
+            'C01.counter-derived', 'container_len.evaluate_size|mismatch', e.site(),
+            'unequal lengths of arrays sharing a sizer must be refused', '')
+    c = g.func('build_container_length_field.container_len._encode')
+    L.check(has(c, 'return sizer_item_type._encode(value + bound_shift, endianness)'), 'C01.counter-derived',
+            'container_len._encode', c.site(), 'the counter on the wire is count + bound_shift in the sizer type', unparse(c.node))
+    s = g.func('struct_generator.substitute_len_field')
+    L.check(has(s, 'delattr(cls, sizer_item.name)'), 'C10d.counter-unsettable', 'substitute_len_field', s.site(),
+            'the sizer property is removed so that a counter cannot be assigned', '')
+
+
+def slot_sizes(ctx, L):
+    """Limited arrays / bytes are padded to their static size; element encoders."""
+    cont = ctx.py.mod('prophy.container')
+    for q, elem in (('bound_scalar_array._encode_impl', 'self._TYPE._encode(value, endianness)'),
+                    ('bound_composite_array._encode_impl', 'value.encode(endianness)'),
+                    ('fixed_scalar_array._encode_impl', 'self._TYPE._encode(value, endianness)'),
+                    ('fixed_composite_array._encode_impl', 'value.encode(endianness)')):
+        f = cont.func(q)
+        src = re.sub(r'\s+', ' ', unparse(f.node.body[-1]))
+        core = "return b''.join((%s for value in self))" % elem
+        if q.startswith('bound'):
+            ok = src == core + ".ljust(self._SIZE, b'\\x00')"
+        else:
+            ok = src == core
+        L.check(ok, 'C01.slot-size', q, f.site(), 'elements are encoded in order with the element codec%s'
+                % (' and the slot is padded to the static size self._SIZE' if q.startswith('bound') else ''), src)
+    comp = ctx.py.mod('prophy.composite')
+    e = comp.func('bytes_._bytes._encode')
+    L.check(has(e, "return value.ljust(size, b'\\x00')"), 'C01.slot-size', '_bytes._encode', e.site(),
+            'bytes are padded to their static size', unparse(e.node))
+    desc = ctx.py.mod('prophy.descriptor')
+    for q, src in (('encode_array', 'return value._encode_impl(endianness)'), ('encode_composite', 'return value.encode(endianness)'),
+                   ('encode_bytes', 'return type_._encode(value)'), ('encode_scalar', 'return type_._encode(value, endianness)')):
+        f = desc.func(q)
+        L.check(has(f, src), 'C01.field-codec', q, f.site(), 'field codec must be `%s`' % src, unparse(f.node))
+
+
+def codec_dispatch(ctx, L):
+    """F10: codec_kind.classify covers exactly the kinds of all_codecs, in an order that classifies each runtime
+    type to its own codec (optional first, sizer before scalar, array before composite ...)."""
+    comp = ctx.py.mod('prophy.composite')
+    cl = comp.func('codec_kind.classify')
+    mapping = [n for n in ast.walk(cl.node) if isinstance(n, ast.List)]
+    if len(mapping) != 1:
+        raise AnalysisError('codec_kind.classify: mapping list not found')
+    order = [(unparse(e.elts[0]), unparse(e.elts[1])) for e in mapping[0].elts]
+    want = [('cls.is_optional', 'cls.OPTIONAL'), ('cls.is_array_sizer', 'cls.ARRAY_SIZER'), ('cls.is_array', 'cls.ARRAY'),
+            ('cls.is_composite', 'cls.COMPOSITE'), ('cls.is_bytes', 'cls.BYTES')]
+    L.check(order == want, 'F10.codec-dispatch', 'codec_kind.classify|order', cl.site(),
+            'classification order must be optional, sizer, array, composite, bytes, else scalar', str(order))
+    L.check(has(cl, 'return cls.SCALAR'), 'F10.codec-dispatch', 'codec_kind.classify|default', cl.site(), 'everything else is a scalar', '')
+    ev = ctx.py.mod('prophy.descriptor').func('DescriptorField.evaluate_codecs')
+    tables = [n for n in ast.walk(ev.node) if isinstance(n, ast.Dict)]
+    if len(tables) != 1:
+        raise AnalysisError('evaluate_codecs: all_codecs table not found')
+    table = {unparse(k): unparse(v) for k, v in zip(tables[0].keys, tables[0].values)}
+    want_t = {'codec_kind.OPTIONAL': '(encode_optional, decode_optional)',
+              'codec_kind.ARRAY_SIZER': '(encode_array_delimiter, decode_array_delimiter)',
+              'codec_kind.ARRAY': '(encode_array, decode_array)', 'codec_kind.COMPOSITE': '(encode_composite, decode_composite)',
+              'codec_kind.BYTES': '(encode_bytes, decode_bytes)', 'codec_kind.SCALAR': '(encode_scalar, decode_scalar)'}
+    L.check(table == want_t, 'F10.codec-dispatch', 'evaluate_codecs|all_codecs', ev.site(),
+            'every codec kind must map to its own (encode, decode) pair', str(table))
+    preds = {'is_optional': 'return bool(type_._OPTIONAL)', 'is_array_sizer': 'return type_._BOUND and issubclass(type_, (int, long))',
+             'is_array': 'return issubclass(type_, base_array)', 'is_composite': 'return issubclass(type_, (struct, union))',
+             'is_bytes': 'return issubclass(type_, bytes)', 'is_struct': 'return issubclass(type_, struct)',
+             'is_union': 'return issubclass(type_, union)', 'is_enum': 'return issubclass(type_, enum)'}
+    for k, v in preds.items():
+        f = comp.func('codec_kind.' + k)
+        L.check(has(f, v), 'F10.codec-dispatch', 'codec_kind.' + k, f.site(), 'predicate must be `%s`' % v, unparse(f.node.body[-1]))
+    L.check(has(ev, 'self.type._encode = staticmethod(opt_encode)') and has(ev, 'self.type._decode = staticmethod(opt_decode)')
+            and has(ev, 'base_kind = codec_kind.classify(self.type.__bases__[0])'), 'F10.codec-dispatch',
+            'evaluate_codecs|optional-base', ev.site(), 'an optional delegates to the codec of its base type', '')
